@@ -97,5 +97,10 @@ CHECKS = {
         "note": "Trusted: mc/oracles/chains.py (numpy). No entry-exit distance within 1e-3 of a threshold. Lists longer than 6 are not explored.",
         "technique": "bounded-exhaustive enumeration of ordered particle configurations on the implementation against the statement's invariants, with branch-reachability guards",
     },
+    "C03": {
+        "text": "1052 orientations (30-degree Euler lattice, gimbal and near-gimbal, out-of-range triples) x all 9^3 sign combinations of positions/shifts ride through lists of 1, 2 and <= 300 rows for every configuration of version {3.0,3.1,4.0} x pixel size x name format x optics on/off: export in memory and to file (parsed by an independent tokenizer), import from independently written STAR files/tables (pixel size from argument, rlnPixelSize, optics block, two optics groups; every single deviation in name style, half-set style, column order), export->import round trips, the four helper functions; arguments given at construction or at the call. The oracle states the convention independently: Rz(rot)Ry(tilt)Rz(psi) * Rz(psi)Rx(theta)Rz(phi) = I, so symmetric sign errors that cancel in a round trip are caught.",
+        "note": "Trusted: mc/oracles/so3.py, the private STAR tokenizer/writer in mc/props/C03.py. Not covered: use_original_entries=True, RELION 5, binning != 1; a file whose rlnRandomSubset holds a single value is not judged for parity. Two recorded findings (C03-K1, C03-K2).",
+        "technique": "bounded-exhaustive enumeration of orientation/position lattices x conversion configurations on the implementation against explicit-matrix convention oracles",
+    },
 }
 NOT_APPLICABLE = {}
